@@ -98,7 +98,7 @@ META = {
         "technique": "Lean 4 (pure-function model + decide over regenerated struct facts); differential replay of probes after varied histories",
     },
     "C02": {
-        "text": "Proof: the call model composes the regenerated gate, the argsToAttrs state machine, the encoder and the regenerated routing; theorems give exactly-once delivery to the selected destinations with one whole LF-terminated payload for every argument list in the domain, silence when not admitted, the one-byte blank Print, and normal return for non-terminating severities; for whole histories with healthy destinations the output is the per-call output of each call on its own, one record per admitted call and none otherwise (healthy_history_once_each, induction over the call list). Tied to the code by the translator (gate, routing, termination, blank shortcut, one Write per printOut) and by a byte-exact correspondence over sequences of verb calls with free-form arguments on three loggers sharing the pools.",
+        "text": "Proof: the call model composes the regenerated gate, the argsToAttrs state machine, the encoder and the regenerated routing; theorems give exactly-once delivery to the selected destinations with one whole LF-terminated payload for every argument list in the domain, silence when not admitted, the one-byte blank Print, and normal return for non-terminating severities; for whole histories with healthy destinations the output is the per-call output of each call on its own, one record per admitted call and none otherwise (healthy_history_once_each, induction over the call list), and a call after any history delivers what it delivers as the first call of a fresh run (call_independent_of_history). Tied to the code by the translator (gate, routing, termination, blank shortcut, one Write per printOut) and by a byte-exact correspondence over sequences of verb calls with free-form arguments on three loggers sharing the pools.",
         "design_ref": "DESIGN.md §7 C02",
         "note": "Trusted: Lean kernel; extractor; the harness's classification of Go argument kinds into the model's Arg cases; values with panicking methods / cycles / attributes in value position are outside the model.",
         "technique": "Lean 4 (state-machine induction, encoder lemmas, regenerated decisions) + differential replay of call sequences",
